@@ -459,6 +459,104 @@ def pre_for(qn, src):
 
 GENERIC_INITS = ("base._STIXBase", "base._Observable", "v21.base._Observable")
 
+
+# ----------------------------------------------------------------------------
+# stix2/exceptions.py: __str__ / __repr__ / __init__ of the library's own exception classes
+# (_check_property calls str(exc) inside its except handler: a __str__ that raises escapes the wrapper)
+
+def check_exception_texts(repo):
+    """(ok, checked, offenders): every message is built by `.format(...)` / `%` on a CONSTANT template (never on a
+    string that input was spliced into), positional fields exist, and `{N.attr}` fields of `self` name attributes
+    that the class's __init__ (or a base's) assigns."""
+    import string
+    path = os.path.join(repo, "stix2", "exceptions.py")
+    tree = ast.parse(open(path, encoding="utf-8").read())
+    classes = {n.name: n for n in tree.body if isinstance(n, ast.ClassDef)}
+
+    def init_attrs(cname, seen=()):
+        out = set()
+        c = classes.get(cname)
+        if c is None or cname in seen:
+            return out
+        for f in c.body:
+            if isinstance(f, ast.FunctionDef) and f.name == "__init__":
+                for n in ast.walk(f):
+                    if isinstance(n, ast.Attribute) and isinstance(n.ctx, ast.Store) and isinstance(n.value, ast.Name) and n.value.id == "self":
+                        out.add(n.attr)
+        for b in c.bases:
+            if isinstance(b, ast.Name):
+                out |= init_attrs(b.id, seen + (cname,))
+        return out
+
+    offenders, checked = [], 0
+    for cname, c in classes.items():
+        attrs = init_attrs(cname)
+        for f in c.body:
+            if not (isinstance(f, ast.FunctionDef) and f.name in ("__str__", "__repr__", "__init__")):
+                continue
+            checked += 1
+            consts = {}
+            for n in ast.walk(f):
+                if isinstance(n, ast.Assign) and len(n.targets) == 1 and isinstance(n.targets[0], ast.Name):
+                    if isinstance(n.value, ast.Constant) and isinstance(n.value.value, str):
+                        consts[n.targets[0].id] = n.value.value
+                    else:
+                        consts.pop(n.targets[0].id, None)
+                        if n.targets[0].id in ("msg", "message", "template", "fmt"):
+                            consts[n.targets[0].id] = None      # a message name bound to a non-constant
+            where = "%s.%s" % (cname, f.name)
+            for n in ast.walk(f):
+                tmpl, args = "?", None
+                if isinstance(n, ast.Call) and isinstance(n.func, ast.Attribute) and n.func.attr == "format":
+                    r = n.func.value
+                    if isinstance(r, ast.Constant) and isinstance(r.value, str):
+                        tmpl = r.value
+                    elif isinstance(r, ast.Name) and isinstance(consts.get(r.id), str):
+                        tmpl = consts[r.id]
+                    else:
+                        offenders.append("%s: .format() on a non-constant template (%s)" % (where, ast.unparse(r)[:60]))
+                        continue
+                    args = n.args
+                    if n.keywords:
+                        offenders.append("%s: keyword arguments to .format()" % where)
+                        continue
+                elif isinstance(n, ast.BinOp) and isinstance(n.op, ast.Mod):
+                    l = n.left
+                    is_str_const = (isinstance(l, ast.Constant) and isinstance(l.value, str)) or \
+                                   (isinstance(l, ast.Name) and isinstance(consts.get(l.id), str))
+                    if not is_str_const and not (isinstance(l, ast.Constant) and not isinstance(l.value, str)):
+                        offenders.append("%s: %% formatting on a non-constant template (%s)" % (where, ast.unparse(l)[:60]))
+                    continue
+                else:
+                    continue
+                try:
+                    fields = [fn for _, fn, _, _ in string.Formatter().parse(tmpl) if fn is not None]
+                except ValueError as e:
+                    offenders.append("%s: malformed template: %s" % (where, e))
+                    continue
+                auto = 0
+                for fn in fields:
+                    head = fn.split(".")[0].split("[")[0]
+                    if head == "":
+                        idx = auto
+                        auto += 1
+                    elif head.isdigit():
+                        idx = int(head)
+                    else:
+                        offenders.append("%s: named field {%s}" % (where, fn))
+                        continue
+                    if idx >= len(args):
+                        offenders.append("%s: field {%s} has no argument" % (where, fn))
+                        continue
+                    if "[" in fn:
+                        offenders.append("%s: indexing field {%s}" % (where, fn))
+                        continue
+                    parts = fn.split(".")[1:]
+                    if parts and isinstance(args[idx], ast.Name) and args[idx].id == "self":
+                        if parts[0] not in attrs and not (parts[0].startswith("__") and parts[0].endswith("__")):
+                            offenders.append("%s: {%s}: self.%s is not assigned in __init__" % (where, fn, parts[0]))
+    return (not offenders), checked, offenders
+
 # stix2/custom.py builder classes: `base_class.__init__(self, **kwargs); _cls_init(cls, self, kwargs)` and, for
 # objects and observables, the with_extension block
 CUSTOM_INIT_PLAIN = "base_class.__init__(self, **kwargs)\n_cls_init(cls, self, kwargs)"
@@ -612,4 +710,10 @@ def translate(repo, py):
     d = dump(repo, py)
     dc = dump(repo, py, custom=True)
     text, unknown = emit(d, dc)
+    ok, checked, offenders = check_exception_texts(repo)
+    text += ("\n(* stix2/exceptions.py: %d __str__/__repr__/__init__ methods checked: every message is formatted from a constant\n"
+             "   template with existing fields%s *)\nDefinition exceptions_str_templates_constant : bool := %s.\n" % (
+                 checked, "" if ok else "; OFFENDERS: " + "; ".join(o.replace("*)", "* )").replace("(*", "( *") for o in offenders),
+                 "true" if ok else "false"))
+    unknown = unknown + ["exceptions.py: " + o for o in offenders]
     return text, {"unknown_hooks": unknown, "fingerprints": d.get("fingerprints", {}), "describe": d, "describe_custom": dc}
